@@ -39,7 +39,7 @@ INFO = {
     ],
 }
 EXPECTED_PROBES = ("trace_at_normal", "trace_at_verbose", "trace_at_debug", "clamped_low", "clamped_high",
-                   "listener_handled", "listener_failed", "keyboard_interrupt", "keyboard_interrupt_debug",
+                   "listener_handled", "listener_handled_without_status", "listener_failed", "keyboard_interrupt", "keyboard_interrupt_debug",
                    "raise_inside_indent", "raise_deep", "origin_simfile", "origin_simfile_fault", "origin_exec",
                    "library_exception", "quiet_exception", "markup_message", "real_recursion_error", "prior_failing_run", "callback_handler")
 
@@ -94,6 +94,8 @@ def gen(S, tier):
     listeners = []
     for _ in range(f.weighted([(0, 6), (1, 3), (2, 1)])):
         listeners.append([f.pick([-10, 0, 5]), f.weighted([("pass", 4), ("handle", 3), ("fail", 2)]), f.pick([0, 3, 300, -2, "9"])])
+        if listeners[-1][1] == "handle" and S("extension").chance(0.25):
+            listeners[-1][2] = "unset"
     prior = [srcgen.gen_exc_spec(f) for _ in range(f.weighted([(0, 6), (1, 3), (2, 1)]))]
     if prior and outcome[0] == "raise" and isinstance(outcome[1], dict) and f.chance(0.35):
         first, second = srcgen.interacting_pair(f)
@@ -255,7 +257,8 @@ def execute(sc):
                 lstate["ran"].append(i)
                 if behaviour == "handle":
                     event.handled(True)
-                    event.set_status_code(code)
+                    if code != "unset":  # a listener may take the command over without naming a status
+                        event.set_status_code(code)
                 elif behaviour == "fail":
                     raise ValueError("listener %d failed" % i)
             return listener
@@ -341,8 +344,13 @@ def execute(sc):
             res.probe("listener_failed")
             break
         if b == "handle":
-            handled, code = True, sc["listeners"][i][2]
+            handled = True
             res.probe("listener_handled")
+            if sc["listeners"][i][2] == "unset":
+                # the status code stays what it was (0, or what a listener before this one named)
+                res.probe("listener_handled_without_status")
+            else:
+                code = sc["listeners"][i][2]
     kind = outcome[0]
     is_ki = kind == "raise" and outcome[1] == "KeyboardInterrupt"
     handler_runs = not handled and not l_failed
